@@ -127,7 +127,7 @@ Theorem stdlib_order_free :
     import_seq t ms = (r1, ROk out1) -> import_seq t ms' = (r2, ROk out2) ->
     Permutation (imported string mprog r1) (imported string mprog r2)
     /\ Permutation out1 out2
-    /\ forall x s, In (x, s) (env def string (fun d => d) out1) <-> In (x, s) (env def string (fun d => d) out2).
+    /\ forall x s, In (x, s) (env def string def_names out1) <-> In (x, s) (env def string def_names out2).
 Proof.
   intros t ms ms' r1 out1 r2 out2 Hs E1 E2. unfold import_seq, g_pass in *.
   assert (Hown : forall l, own string def (use_all l) = []).
@@ -143,7 +143,169 @@ Proof.
     { eapply Permutation_trans; [exact O1|]. eapply Permutation_trans; [exact PF|].
       apply Permutation_sym. exact O2. }
     split; [rewrite A1, A2; exact P|]. split; [exact PO|].
-    intros x s. pose proof (env_perm def string (fun d => d) _ _ PO) as PE.
+    intros x s. pose proof (env_perm def string def_names _ _ PO) as PE.
     split; intro H; [eapply Permutation_in; eassumption|].
     eapply Permutation_in; [apply Permutation_sym; eassumption | exact H].
+Qed.
+
+(* ---- closedness of a concrete table: the boolean checker closedb (ImportExec.v)
+        implies the Prop-level closed_table of ImportProofs.v, for the scoping
+        predicate "every free identifier of the definition has an alternative that is
+        a name of the definition itself or of a statement of the environment" ---- *)
+Local Open Scope list_scope.
+Definition ok_str (E : def -> Prop) (d : def) : Prop :=
+  forall alts, In alts (def_free d) ->
+    exists a, In a alts /\ (In a (def_names d) \/ exists d', E d' /\ In a (def_names d')).
+
+Lemma ok_str_mono : forall (E E' : def -> Prop) d, (forall x, E x -> E' x) -> ok_str E d -> ok_str E' d.
+Proof.
+  intros E E' d H Hok alts Ha. destruct (Hok alts Ha) as (a & Hin & [Hn|(d' & He & Hd)]).
+  - exists a. split; [exact Hin | now left].
+  - exists a. split; [exact Hin|]. right. exists d'. split; [now apply H | exact Hd].
+Qed.
+
+Lemma skipn_str_app : forall (l new : list string), skipn_str (length l) (l ++ new) = new.
+Proof. induction l as [|x r IH]; intro new; [reflexivity | exact (IH new)]. Qed.
+
+Section ClosedTable.
+  Variable t : mtable.
+  Notation gbody := (body string mprog def (g_importer t) g_parse).
+  Notation greach := (reach string mprog def (g_importer t) g_parse).
+  Notation gown_of := (own_of string mprog def (g_importer t) g_parse).
+  Notation gclosed_except := (closed_except string mprog def (g_importer t) g_parse).
+
+  Lemma m_names_own : forall p, m_names p = flat_map def_names (own string def p).
+  Proof.
+    unfold m_names, own. induction p as [|[m|d] r IH]; cbn [flat_map app].
+    - reflexivity.
+    - exact IH.
+    - rewrite IH. reflexivity.
+  Qed.
+
+  Lemma names_of_modules_spec : forall ms a,
+      In a (names_of_modules t ms) <-> exists m d, In m ms /\ In d (gown_of m) /\ In a (def_names d).
+  Proof.
+    intros ms a. unfold names_of_modules. rewrite in_flat_map.
+    assert (Hown : forall m, gown_of m = match assoc m t with Some p => own string def p | None => [] end).
+    { intro m. unfold own_of. now rewrite gbody_assoc. }
+    split.
+    - intros (m & Hm & Ha). destruct (assoc m t) as [p|] eqn:Ea; [|destruct Ha].
+      rewrite m_names_own, in_flat_map in Ha. destruct Ha as (d & Hd & Ha).
+      exists m, d. rewrite Hown, Ea. auto.
+    - intros (m & d & Hm & Hd & Ha). exists m. split; [exact Hm|].
+      rewrite Hown in Hd. destruct (assoc m t) as [p|]; [|destruct Hd].
+      rewrite m_names_own, in_flat_map. now exists d.
+  Qed.
+
+  Lemma reach_app_iff : forall A B m, greach (A ++ B) m <-> greach A m \/ greach B m.
+  Proof.
+    intros A B m. split.
+    - intro H. induction H as [m Hin | m m' p H IH Hb Hu].
+      + apply in_app_iff in Hin. destruct Hin; [left | right]; now apply reach_root.
+      + destruct IH as [IH|IH]; [left | right]; eapply reach_step; eassumption.
+    - intros [H|H]; (eapply reach_mono; [|exact H]); [apply incl_appl | apply incl_appr]; apply incl_refl.
+  Qed.
+
+  Definition env_of (r : resolver string mprog) (done_ : mprog) (x : def) : Prop :=
+    In x (own string def done_) \/ exists m', greach (uses string def done_) m' /\ In x (gown_of m').
+
+  Lemma closed_items_sound :
+    forall items avail r done_,
+      gclosed_except [] r -> NoDup (imported string mprog r) ->
+      (forall m', In m' (imported string mprog r) <-> greach (uses string def done_) m') ->
+      (forall a, In a avail -> exists d, env_of r done_ d /\ In a (def_names d)) ->
+      closed_items t avail r items = true ->
+      forall p1 s p2, items = p1 ++ SOther s :: p2 -> ok_str (env_of r (done_ ++ p1)) s.
+  Proof.
+    induction items as [|st rest IH]; intros avail r done_ Hc ND Himp Hav H p1 s p2 E.
+    - destruct p1; discriminate.
+    - destruct st as [m|d].
+      + (* use m *)
+        cbn [closed_items] in H. unfold g_pass in H.
+        destruct (inlining_pass string String.eqb mprog def (g_importer t) g_parse
+                    (Datatypes.S (length t)) r [SUse m]) as [r1 x] eqn:Ep.
+        destruct x as [o| |]; try discriminate.
+        destruct (pass_once string String.eqb string_eqb_spec' mprog def (g_importer t) g_parse
+                    (Datatypes.S (length t)) r [SUse m] ND) as (new & A1 & A2 & _).
+        rewrite Ep in A1. cbn [fst] in A1. rewrite A1, skipn_str_app in H.
+        pose proof (pass_closed string String.eqb string_eqb_spec' mprog def (g_importer t) g_parse
+                      (Datatypes.S (length t)) r [SUse m] [] o Hc) as Hcl.
+        rewrite Ep in Hcl. cbn [fst snd] in Hcl. destruct (Hcl eq_refl) as [C1 _].
+        pose proof (imported_is_closure string String.eqb string_eqb_spec' mprog def (g_importer t) g_parse
+                      _ _ _ _ _ Hc Ep) as Hiff.
+        destruct p1 as [|st1 p1']; [discriminate|]. inversion E; subst st1 rest.
+        assert (Hd : (done_ ++ SUse m :: p1') = ((done_ ++ [SUse m]) ++ p1')) by now rewrite <- app_assoc.
+        rewrite Hd.
+        refine (IH (avail ++ names_of_modules t new) r1 (done_ ++ [SUse m]) C1 _ _ _ H p1' s p2 eq_refl).
+        * now rewrite A1.
+        * intro m'. rewrite Hiff, Himp, (uses_app string def), reach_app_iff. reflexivity.
+        * intros a Ha. apply in_app_iff in Ha. destruct Ha as [Ha|Ha].
+          -- destruct (Hav a Ha) as (d & [Hd1|(m' & Hr & Hd1)] & Hn); exists d; (split; [|exact Hn]).
+             ++ left. rewrite (own_app string def). apply in_app_iff. now left.
+             ++ right. exists m'. split; [|exact Hd1]. rewrite (uses_app string def), reach_app_iff. now left.
+          -- apply names_of_modules_spec in Ha. destruct Ha as (m' & d & Hm & Hd1 & Hn).
+             exists d. split; [|exact Hn]. right. exists m'. split; [|exact Hd1].
+             rewrite (uses_app string def), reach_app_iff.
+             assert (Hi : In m' (imported string mprog r1)) by (rewrite A1; apply in_app_iff; now right).
+             apply Hiff in Hi. destruct Hi as [Hi|Hi]; [left; now apply Himp | now right].
+      + (* a definition *)
+        cbn [closed_items] in H. apply andb_true_iff in H. destruct H as [H1 H2].
+        destruct p1 as [|st1 p1'].
+        * inversion E; subst d rest. rewrite app_nil_r.
+          intros alts Ha. rewrite forallb_forall in H1. specialize (H1 alts Ha).
+          rewrite existsb_exists in H1. destruct H1 as (a & Hin & Hm). apply mem_In in Hm.
+          exists a. split; [exact Hin|]. apply in_app_iff in Hm. destruct Hm as [Hm|Hm]; [now left|].
+          right. destruct (Hav a Hm) as (d' & He & Hn). now exists d'.
+        * inversion E; subst st1 rest.
+          assert (Hd : (done_ ++ SOther d :: p1') = ((done_ ++ [SOther d]) ++ p1')) by now rewrite <- app_assoc.
+          rewrite Hd.
+          refine (IH (avail ++ def_names d) r (done_ ++ [SOther d]) Hc ND _ _ H2 p1' s p2 eq_refl).
+          -- intro m'. rewrite Himp, (uses_app string def). cbn. now rewrite app_nil_r.
+          -- intros a Ha. apply in_app_iff in Ha. destruct Ha as [Ha|Ha].
+             ++ destruct (Hav a Ha) as (d' & [Hd1|(m' & Hr & Hd1)] & Hn); exists d'; (split; [|exact Hn]).
+                ** left. rewrite (own_app string def). apply in_app_iff. now left.
+                ** right. exists m'. split; [|exact Hd1]. rewrite (uses_app string def). cbn. now rewrite app_nil_r.
+             ++ exists d. split; [|exact Ha]. left. rewrite (own_app string def). apply in_app_iff. right. now left.
+  Qed.
+
+  Theorem closedb_sound :
+    closedb t = true ->
+    closed_table string mprog def (g_importer t) g_parse ok_str.
+  Proof.
+    intros H m q Hq p1 s p2 E. rewrite gbody_assoc in Hq. apply assoc_In in Hq.
+    unfold closedb in H. rewrite forallb_forall in H. specialize (H _ Hq). cbn [snd] in H.
+    pose proof (closed_items_sound q builtin_names (new_resolver string mprog) []) as S0.
+    cbn [app] in S0.
+    eapply ok_str_mono; [|eapply (S0 _ _ _ _ H p1 s p2 E)].
+    - intros x [Hx|(m' & Hr & Hx)]; [now left|]. right. exists m'. split; [now right | exact Hx].
+    Unshelve.
+    + intros m0 Hm0 _. destruct Hm0.
+    + constructor.
+    + intro m'. cbn. split; [intros [] | intro Hr]. exfalso. induction Hr as [? []| ]; assumption.
+    + intros a [].
+  Qed.
+End ClosedTable.
+
+(* every definition inlined by any sequence of imports into a fresh session finds
+   each identifier it uses defined by itself or by some definition of the same
+   session — whatever the order of the imports *)
+Theorem table_defs_available :
+  forall t, closedb t = true ->
+  forall ms r1 out,
+    import_seq t ms = (r1, ROk out) ->
+    forall d, In d out -> ok_str (fun x => In x out) d.
+Proof.
+  intros t Hc ms r1 out E d Hd. unfold import_seq, g_pass in E.
+  assert (C0 : closed_except string mprog def (g_importer t) g_parse [] (new_resolver string mprog)).
+  { intros m Hm. destruct Hm. }
+  assert (N0 : NoDup (imported string mprog (new_resolver string mprog))) by constructor.
+  assert (P0 : closed_prog string mprog def (g_importer t) g_parse ok_str
+                           (imported string mprog (new_resolver string mprog)) (use_all ms)).
+  { intros p1 s p2 Ep. exfalso. clear - Ep. revert p1 Ep.
+    induction ms as [|m r IH]; intros p1 Ep; [destruct p1; discriminate|].
+    destruct p1 as [|x p1]; [discriminate|]. cbn in Ep. inversion Ep. eapply IH; eassumption. }
+  pose proof (defs_available string String.eqb string_eqb_spec' mprog def (g_importer t) g_parse
+                ok_str ok_str_mono (closedb_sound t Hc) _ _ _ _ _ C0 N0 E P0 d Hd) as H.
+  eapply ok_str_mono; [|exact H].
+  intros x [Hx|(m & [] & _)]. exact Hx.
 Qed.
